@@ -5,7 +5,7 @@ Spec    spec/WireRR.tla: hand-written layout table (80 type codes = all of dns.T
 MC      MC_WireRR: DecMsg(EncMsg(m)) = frame of m, DecRdata inverts EncRdata for the regular kinds,
         LenMsg = Len(EncMsg), record offsets / packing plan, RCODE split and join, on a small universe.
 GEN     Gen_WireRR modes types / cross / rrhdr / opts / svcb / gateway / nodata / unknown / hdr / rcode /
-        sections / big / compress  ->  harness `wire replay`: Pack() = spec octets; Unpack(spec octets) = message
+        sections / big / compress / orders  ->  harness `wire replay`: Pack() = spec octets; Unpack(spec octets) = message
         (every header bit, count, field); Unpack(spec octets).Pack() = spec octets; PackRR / UnpackRR /
         Rdlength agree; messages the wire format cannot carry must be refused.
 TV      harness `wire record` (random abstract messages over the whole layout -> real Pack / Unpack / re-Pack)
@@ -29,7 +29,7 @@ All nine compile; the six "both directions" ones are invisible to pack/unpack ro
 import os, json
 import vp
 
-SHARDED = {"types", "cross", "nodata", "hdr", "rcode", "sections", "big", "compress"}
+SHARDED = {"types", "cross", "nodata", "hdr", "rcode", "sections", "big", "compress", "orders"}
 
 
 def layout(ctx):
@@ -123,7 +123,7 @@ def run(ctx):
         gen_jobs(ctx, binp, lay, "replay", [
             ("types", 4, s4), ("rrhdr", 1, [0]), ("opts", 1, [0]), ("svcb", 1, [0]), ("gateway", 1, [0]),
             ("nodata", 1, [0]), ("unknown", 1, [0]), ("hdr", 1, [0]), ("rcode", 1, [0]), ("sections", 1, [0]),
-            ("big", 1, [0]), ("compress", 1, [0]), ("cross", 4, [ctx.seed % 4])], tier=0)
+            ("big", 1, [0]), ("compress", 1, [0]), ("orders", 1, [0]), ("cross", 4, [ctx.seed % 4])], tier=0)
         tv(ctx, binp, lay, 2500, 4)
     else:
         ctx.tlc("MC_WireRR", consts={"Scale": 1}, timeout=3000)
@@ -131,13 +131,16 @@ def run(ctx):
         gen_jobs(ctx, binp, lay, "replay", [
             ("hdr", 16, s16), ("rcode", 4, [0, 1, 2, 3]), ("types", 4, [0, 1, 2, 3]), ("cross", 4, [0, 1, 2, 3]),
             ("rrhdr", 1, [0]), ("opts", 1, [0]), ("svcb", 1, [0]), ("gateway", 1, [0]), ("nodata", 1, [0]),
-            ("unknown", 1, [0]), ("sections", 1, [0]), ("big", 1, [0]), ("compress", 4, [0, 1, 2, 3])], tier=1)
+            ("unknown", 1, [0]), ("sections", 1, [0]), ("big", 1, [0]), ("compress", 4, [0, 1, 2, 3]), ("orders", 1, [0])], tier=1)
         tv(ctx, binp, lay, 8000, 16)
     ctx.assumptions += [
         "abstract messages are well-formed in the sense of WireRR!WFMsg: names <= 255 octets, length fields equal to the "
         "length of what they size, type bitmaps / SvcParam mandatory lists strictly increasing, no duplicate SvcParamKeys, "
         "at most one OPT (in the additional section), APL / client-subnet addresses zero beyond the prefix, opcode 0..15",
         "the Go value of an RDATA-less record is *dns.ANY carrying the record's type (the library's own convention, update.go)",
+        "type bitmaps, SvcParams and the keys of SVCB 'mandatory' are sets: the Go value may list them in any order (vectors: increasing, "
+        "decreasing, every single adjacent transposition, sets of 2-4) and must be packed in increasing order; AMBIG: an unordered type "
+        "bitmap may instead be refused by Pack() (never mis-encoded)",
         "canonical encodings only: EDNS0 UL without a zero KEY-LEASE, no compression pointers (C04 covers compression)",
         "values the Go API cannot spell (ISDN without sub-address, tcp-keepalive TIMEOUT present with value 0) are only "
         "checked in the unpack -> pack direction",
